@@ -163,9 +163,20 @@ def handle (cmd : String) (j : J) : Except String J :=
     let rich ← (← j.get "rich").toListOf parseRule
     let null ← (← j.get "null").toListOf parseRule
     let chars : String → List String := fun s => s.toList.map (fun c => String.singleton c)
+    -- audit addition: the executable well-formedness test of `scoped_rules_preserve_values_checked`
+    -- (`wfr`) and the original, stronger `WF.quirk` clause over ALL null rules (`quirk_all`)
+    let kr := ScopedRules.keyed rich
+    let kn := ScopedRules.keyed null
+    let wf : List (String × J) :=
+      [("wfr", J.bool (ScopedRules.wfrB chars kr kn)), ("quirk_all", J.bool (ScopedRules.quirkAllB chars kn))]
     match ScopedRules.updateScoped chars rich null with
-    | .error _ => pure (J.obj [("err", J.str "ValueError")])
-    | .ok out => pure (J.obj [("rules", J.arr (out.map ruleJ))])
+    | .error _ => pure (J.obj ([("err", J.str "ValueError")] ++ wf))
+    | .ok out =>
+      -- the conclusion of the theorem, evaluated: every output rule, on every edge it names, carries
+      -- the value of the (keyed) null rule of that parameter covering the edge
+      let concl := out.all fun o => (o.edges.getD []).all fun e =>
+        kn.all fun n => !(n.par == o.par && ScopedRules.covers n e) || o.val == n.val
+      pure (J.obj ([("rules", J.arr (out.map ruleJ)), ("conclusion", J.bool concl)] ++ wf))
   | _ => throw s!"unknown command {cmd}"
 
 def main : IO Unit := driverLoop handle
